@@ -308,17 +308,24 @@ class Ref:
         if k == "catch_all":
             return self.catch_all(n, ctx)
         if k == "map":
-            def go_map(fv):
-                f, values = fv
-                if not isinstance(values, (list, tuple)):
-                    try:
-                        values = list(values)
-                    except Exception as e:
-                        return [("e", e)]
-                res = [[]]
-                outs = [self.apply_callable(f, [x], {}, ctx) for x in values]
-                return self._combine(outs)
-            return self._bind(self._all([n[1], n[2]], ctx), go_map)
+            # map_ is a scheduler task: it evaluates the task first; a literal list/tuple of values is NOT evaluated
+            # by map_ itself - each element expression becomes an argument of its call (evaluated together with the
+            # bound arguments of a partial); any other values expression is evaluated first
+            vn = n[2]
+
+            def go_f(f):
+                if vn[0] == "cont" and vn[1] in ("list", "tuple"):
+                    return self._combine([self.apply_callable_nodes(f, [x], ctx) for x in vn[2]])
+
+                def go_values(values):
+                    if not isinstance(values, (list, tuple)):
+                        try:
+                            values = list(values)
+                        except Exception as e:
+                            return [("e", e)]
+                    return self._combine([self.apply_callable(f, [x], {}, ctx) for x in values])
+                return self._bind(self.ev(vn, ctx), go_values)
+            return self._bind(self.ev(n[1], ctx), go_f)
         if k == "flat_map":
             inner = ["map", ["taskval", n[1]], n[2]]
             # flat_map is a regular task: flatten(map_(a_task, values)); its args are evaluated first
@@ -468,6 +475,14 @@ class Ref:
             name = f.name
             return self.apply_task(name, args, kwargs, {}, ctx)
         return self._pure(lambda: f(*args, **kwargs))
+
+    def apply_callable_nodes(self, f, arg_nodes, ctx):
+        """Call f with argument *expressions*: they are evaluated concurrently with a partial's bound arguments."""
+        if isinstance(f, tuple) and f and f[0] == "__partial__":
+            nb = len(f[2])
+            return self._bind(self._all(list(f[2]) + list(arg_nodes), ctx),
+                              lambda vals: self.apply_task(f[1], list(vals), {}, {}, ctx))
+        return self._bind(self._all(list(arg_nodes), ctx), lambda vals: self.apply_callable(f, list(vals), {}, ctx))
 
     def apply_task(self, name, args, kwargs, opts, ctx):
         ov = ctx_override(opts)
